@@ -307,6 +307,16 @@ impl<N> AstChildren<N> {
         ensures old(self).rest().len() == 0 ==> r is None && final(self).rest() == old(self).rest(),
                 old(self).rest().len() > 0 ==> r == Some(old(self).rest()[0]) && final(self).rest() == old(self).rest().skip(1),
     { unimplemented!() }
+    /// Iterator::nth / count / last as std documents them (not used by the analyser today; stated so that an edit which
+    /// starts using them stays inside the verified dialect)
+    #[verifier::external_body] pub fn nth(&mut self, n: usize) -> (r: Option<N>)
+        ensures n < old(self).rest().len() ==> r == Some(old(self).rest()[n as int]) && final(self).rest() == old(self).rest().skip(n as int + 1),
+                n >= old(self).rest().len() ==> r is None && final(self).rest().len() == 0,
+    { unimplemented!() }
+    #[verifier::external_body] pub fn count(self) -> (r: usize) ensures r == self.rest().len() { unimplemented!() }
+    #[verifier::external_body] pub fn last(self) -> (r: Option<N>)
+        ensures self.rest().len() == 0 ==> r is None, self.rest().len() > 0 ==> r == Some(self.rest().last()),
+    { unimplemented!() }
 }
 ''')
     o = U.file(OPS)
